@@ -10,10 +10,11 @@ CONSTANTS
   MaxSessions = 2
   Programs <- MCPrograms
   Record = TRUE
+  Fat = FALSE
   MaxCommits = 2
-  MaxLog = 3
+  MaxLog = 2
   MaxOut = 2
-  MaxUps = 2
+  MaxUps = 1
   ActorsOnly1 = FALSE
   SimDepth = 0
 ACTION_CONSTRAINT EmitBounded
